@@ -155,7 +155,7 @@ func (r *Run) RunShards(n int) []json.RawMessage {
 		i := i
 		go func() {
 			cmd := exec.Command(os.Args[0], os.Args[1:]...)
-			cmd.Env = append(os.Environ(), fmt.Sprintf("VERIF_SHARD=%d/%d", i, n), fmt.Sprintf("VERIF_PARTIAL=%s/partial-%s-%d.json", dir, r.ID, i), "GOMAXPROCS="+shardProcs(), "GOGC=200", "GOMEMLIMIT=6GiB")
+			cmd.Env = append(os.Environ(), fmt.Sprintf("VERIF_SHARD=%d/%d", i, n), fmt.Sprintf("VERIF_PARTIAL=%s/partial-%s-%d.json", dir, r.ID, i), "GOMAXPROCS="+shardProcs(), "GOGC=200", "GOMEMLIMIT=3GiB")
 			cmd.Stdout = os.Stdout
 			cmd.Stderr = os.Stderr
 			ch <- res{i, cmd.Run()}
